@@ -20,9 +20,10 @@ SPEC = {
     "design_ref": "DESIGN.md section 7, C10",
     "suites": [
         Suite(name="layout", harness="vh_layout", runner="layout",
-              model_deps=["theories/Model/Layout.vo", "theories/Model/LayoutMulti.vo", "theories/Model/Parse.vo",
+              model_deps=["theories/Model/Layout.vo", "theories/Model/LayoutMulti.vo", "theories/Model/LayoutRace.vo",
+                          "theories/Model/Parse.vo",
                           "theories/Model/LayoutRef.vo"],
-              quick_n=420, thorough_n=6000, timeout=3000, rewrite=rewrite_os_for_c10,
+              quick_n=330, thorough_n=6000, timeout=3000, rewrite=rewrite_os_for_c10,
               rule="cases: real place on (hdrLen, limit, namelen) incl. limits around page ends, unaligned, near 2^32 (55%); "
                    "real hash (10%); real mappedHeader (5%); operation sequences through the real mappedFile API "
                    "(openMapped, newCounter, Add on the returned pointer, extend, close/reopen incl. foreign metadata) or the "
@@ -33,11 +34,16 @@ SPEC = {
                    "the real library (10%). In the mapped-API sequences 18% of the operations run with a fault plan in the "
                    "os shim (file-system call 0..5 of the operation fails with ENOSPC/EIO/EFBIG/EDQUOT; names chosen so that "
                    "the record does not fit into the file, i.e. the calls of extend are reached); limit and size are read "
-                   "from disk after EVERY operation, failed ones included. Before those: racing creation: 2 (thorough: 12) "
-                   "scenarios of 2 or 3 writers (independent openMapped handles as managed threads of the deterministic "
-                   "scheduler, parked before every file-system call) opening the SAME file that is absent / empty / "
-                   "header-only and adding 1-2 counters each, under every plan with at most 2 preemptions (3 writers in the "
-                   "quick tier: 400 sampled plans), one case per distinct schedule, replayed on Model/LayoutMulti. "
+                   "from disk after EVERY operation, failed ones included. Before those: racing writers (independent "
+                   "openMapped handles as managed threads of the deterministic scheduler, parked before every file-system "
+                   "call, also those inside newCounter's extend and remap loop), every plan with at most 2 preemptions (a "
+                   "deterministic sample when there are more than a few hundred), one case per distinct schedule: (a) "
+                   "creation: 2 or 3 writers opening the SAME file that is absent / empty / header-only and adding 1-2 "
+                   "counters each; (b) growth: the file exists with its last page nearly full, 2 (thorough also 3) writers "
+                   "create the SAME new name whose record needs a new page, so that one parks inside extend while the "
+                   "other links the name, then allocate 0-3 further records of different sizes. Limit and size are read "
+                   "from disk after EVERY scheduler step; the run is replayed on Model/LayoutRace (and on the coarser "
+                   "Model/LayoutMulti for (a)). "
                    "distinct = distinct case lines; every case compares implementation observables "
                    "with the model and evaluates the layout oracle, none is trivial"),
     ],
@@ -60,9 +66,12 @@ SPEC = {
                   "exactly the abstract map of the operations; files of the independent encoder are well-formed and the "
                   "model of Parse reads them back. The model is tied to the code by byte-for-byte comparison of real files "
                   "with the model's rendering and by evaluating wf_file and the independent reader on the real bytes.",
-    "level_note": "Several writers are covered for the creation sequence of openMapped only (each writer's later operations "
-                  "are single steps of that model); their interleaving at atomic-operation granularity (CAS on the limit "
-                  "and on bucket heads, dead records) is C04's subject and is not proved here. Faults are errno failures "
+    "level_note": "Several writers: proved here for the creation sequence of openMapped (C10_racing_creation; each writer's "
+                  "later operations are single steps of that model). For the interleavings of newCounter itself (CAS on "
+                  "the limit and on bucket heads, stale heads, dead records) Props/C10.v cites the C04 theorems about "
+                  "Model/FileConc (one record per name, limit / size / values never decrease, every schedule); the "
+                  "file-system-call-granularity model Model/LayoutRace.v that the race cases replay is executable only and "
+                  "tied to the code by the suite, it has no theorem of its own. Faults are errno failures "
                   "without partial effect (no short writes) of the calls made by extend; a process killed between two "
                   "calls is the 'writer that stops anywhere' of the racing-creation schedules, not of the growth sequence. Sequences are restricted to files at least 64 KiB below the 4 GiB "
                   "cap of the format (hypothesis all_small / small): beyond it place and extend wrap in uint32 "
